@@ -594,9 +594,38 @@ func (g *c09PoolGen) goodOwn() C09Ent {
 // special returns one entry (or a cancelling group) that is interesting on its own.
 func (g *c09PoolGen) special() []C09Ent {
 	t := g.t
-	kind := rapid.IntRange(0, 17).Draw(t, "speckind")
+	kind := rapid.IntRange(0, 19).Draw(t, "speckind")
 	hk := func() int { return g.keyOf("honest", "mixed") }
 	switch kind {
+	case 18, 19: // a valid entry, then THE SAME message and signature presented under another key - one that cannot be
+		// decoded, has the wrong length, or is simply somebody else's - once or twice in a row.  Whatever a verifier
+		// remembers about "the key of the previous entry" (an expansion, a hash prefix) must not survive a key
+		// that failed to parse, nor leak into the next entry that names the same bad key again.
+		e1 := g.goodDefault()
+		k2 := g.keyOf("undecodable", "wronglen", "ncbig")
+		if k2 < 0 || rapid.IntRange(0, 3).Draw(t, "otherhonest") == 0 {
+			k2 = -1
+			for i, k := range g.p.Keys {
+				if i != e1.Key && (k.Kind == "honest" || k.Kind == "mixed") {
+					k2 = i
+				}
+			}
+		}
+		if k2 < 0 || k2 == e1.Key {
+			e1.Cls = "replayed-under-key/none"
+			return []C09Ent{e1}
+		}
+		e2 := e1
+		e2.Key, e2.SKey = k2, e1.Key
+		e2.Cls = "replayed-under-key/" + g.p.Keys[k2].Kind
+		switch rapid.IntRange(0, 2).Draw(t, "replays") {
+		case 0:
+			return []C09Ent{e1, e2}
+		case 1:
+			return []C09Ent{e1, e2, e2}
+		default:
+			return []C09Ent{e1, e2, e1, e2, e2}
+		}
 	case 0: // cofactorless, valid
 		e := g.base(g.keyOf("honest"))
 		e.Opt = c09GenOpt(t, C09Cofactorless, "opt")
